@@ -369,11 +369,17 @@ def parse_variant_tables(
     Parse variant_tables from vcf_reader. If chromosomes are given and VCF is indexed,
     theses are accessed by direct lookup.
     """
+    # The ploidy may differ between chromosomes (haploid calls on chrX, chrY or chrM), so it is
+    # determined anew for every chromosome
     if chromosomes and vcf_reader.index_exists():
         for chromosome in chromosomes:
+            vcf_reader.ploidy = None
             yield vcf_reader.fetch(chromosome)
     else:
-        yield from vcf_reader
+        vcf_reader.ploidy = None
+        for variant_table in vcf_reader:
+            yield variant_table
+            vcf_reader.ploidy = None
 
 
 def get_chr_lengths(
@@ -518,6 +524,8 @@ def run_stats(
         else:
             sample = vcf_reader.samples[0]
             logger.info(f"Reporting results for sample {sample}")
+        # Calls of the other samples need not have the ploidy of the reported one
+        vcf_reader.samples_of_interest = {sample}
 
         chr_lengths = get_chr_lengths(vcf_reader, chr_lengths)
 
